@@ -578,9 +578,27 @@ def diff(a, axis=-1):
     raise ShimUnsupported("diff ndim")
 
 
+def _arg_along(fn, a, axis):
+    """argmax / argmin of a 2-d array along one axis: one 1-d reduction per row (or column); forks on the comparisons
+    because the result is used as an index"""
+    if a.ndim != 2 or axis not in (0, 1, -1):
+        raise ShimUnsupported("argmax/argmin axis on ndim != 2")
+    rows, cols = a.shape
+    out = []
+    if axis == 0:
+        for j in range(cols):
+            out.append(_pyint(fn(ndarray([a._d[i * cols + j] for i in range(rows)], (rows,), a.dtype))))
+        return ndarray(out, (cols,), int64)
+    for i in range(rows):
+        out.append(_pyint(fn(ndarray(a._d[i * cols:(i + 1) * cols], (cols,), a.dtype))))
+    return ndarray(out, (rows,), int64)
+
+
 def argmax(a, axis=None):
     a = _a(a)
-    if axis is not None or a.ndim != 1:
+    if axis is not None and a.ndim == 2:
+        return _arg_along(argmax, a, axis)
+    if (axis not in (None, 0, -1)) or a.ndim != 1:
         raise ShimUnsupported("argmax axis")
     if not a.size:
         raise ValueError("attempt to get argmax of an empty sequence")
@@ -601,7 +619,9 @@ def argmax(a, axis=None):
 
 def argmin(a, axis=None):
     a = _a(a)
-    if axis is not None or a.ndim != 1:
+    if axis is not None and a.ndim == 2:
+        return _arg_along(argmin, a, axis)
+    if (axis not in (None, 0, -1)) or a.ndim != 1:
         raise ShimUnsupported("argmin axis")
     if not a.size:
         raise ValueError("attempt to get argmin of an empty sequence")
